@@ -32,7 +32,9 @@ HOLDS = [('wait', '@robot wait'),
          ('after-merged', '@robot after_pull_request=4'),
          ('after-unknown', '@robot after_pull_request=99'),
          ('after-nan', '@robot after_pull_request=abc'),
-         ('after-two', '@robot after_pull_request=2 after_pull_request=4')]
+         ('after-two', '@robot after_pull_request=2 after_pull_request=4'),
+         ('after-two-rev',
+          '@robot after_pull_request=4 after_pull_request=2')]
 PAIR_SOURCES = ['bugfix/x', 'feature/TEST-9', 'user/alice/x', 'hotfix/4.2.17',
                 'release/4.3', 'development/4.3', 'w/5.1/bugfix/x', 'q/4.3',
                 'random-name', 'hotfix/old-style']
@@ -58,13 +60,18 @@ def specs(tier):
                 hold_spec('c12-noq-after-declined', HOLDS[2][1], False, 4,
                           decline=False),
                 hold_spec('c12-q-wait', HOLDS[0][1], True, 5, decline=False),
+                hold_spec('c12-noq-after-two', HOLDS[6][1], False, 3,
+                          decline=False),
+                hold_spec('c12-noq-after-two-rev', HOLDS[7][1], False, 3,
+                          decline=False),
                 pairs_spec(False)]
     out = []
     for queue in (False, True):
         for tag, text in HOLDS:
             out.append(hold_spec('c12-%s-%s' % ('q' if queue else 'noq', tag),
                                  text, queue, 6 if not queue else 7,
-                                 merge_pr2=tag in ('after-open', 'after-two')))
+                                 merge_pr2=tag in ('after-open', 'after-two',
+                                                  'after-two-rev')))
         out.append(pairs_spec(queue))
     return out
 
